@@ -138,6 +138,7 @@ def gen_case(ctx, idx, stream='case'):
     c['spacing'] = r.choice([1.0, 1.0, 2.5, 0.5, -1.0])
     c['fractional_type'] = r.choice(['PROBABILITY', 'OCCUPANCY'])
     c['ts_as_str'] = r.random() < 0.3
+    c['ctor_spelling'] = r.choice(['plain', 'plain', 'enums', 'numpy', 'tuples'])
     # LABELMAP with a palette colour LUT (PhotometricInterpretation PALETTE COLOR): the labels must still read back
     c['palette'] = c['type'] == 'LABELMAP' and max(c['segs']) <= 4097 and r.random() < 0.3
     return c
@@ -417,11 +418,20 @@ def construct(c, src, mask):
             luts.append(hd.PaletteColorLUT(first_mapped_value=0, lut_data=data, color=col))
         extra['palette_color_lut_transformation'] = hd.PaletteColorLUTTransformation(
             red_lut=luts[0], green_lut=luts[1], blue_lut=luts[2], palette_color_lut_uid=hd.UID())
+    typ, ftyp, mfv, descs = c['type'], c.get('fractional_type', 'PROBABILITY'), c['mfv'], [seg_description(s) for s in c['segs']]
+    how = c.get('ctor_spelling', 'plain')
+    if how == 'enums':
+        typ = hd.seg.SegmentationTypeValues[typ]
+        ftyp = hd.seg.SegmentationFractionalTypeValues[ftyp]
+    elif how == 'numpy':
+        mfv = np.int64(mfv)
+    elif how == 'tuples':
+        src, descs = tuple(src), tuple(descs)
     return hd.seg.Segmentation(
-        src, mask, c['type'], [seg_description(s) for s in c['segs']], **extra,
+        src, mask, typ, descs, **extra,
         series_instance_uid=hd.UID(), series_number=2, sop_instance_uid=hd.UID(), instance_number=1,
         manufacturer='verif', manufacturer_model_name='m', software_versions='1', device_serial_number='1',
-        max_fractional_value=c['mfv'], fractional_type=c.get('fractional_type', 'PROBABILITY'),
+        max_fractional_value=mfv, fractional_type=ftyp,
         transfer_syntax_uid=(str(_ts(c['ts'])) if c.get('ts_as_str') else _ts(c['ts'])),
         omit_empty_frames=c['omit'], workers=w)
 
@@ -431,11 +441,57 @@ def _err_kind(e):
             'KeyError': 'key', 'AttributeError': 'attribute'}.get(type(e).__name__, 'other')
 
 
-def read_back(seg, c, src, ids, order, **kw):
-    """Read the planes `order` (indices into the supplied source list) through the public API."""
+FRAME_SPELLINGS = ['list', 'tuple', 'ndarray', 'ndarray-int32', 'np.int64', 'np.int32', 'np.uint16', 'np.intp', 'range']
+UID_SPELLINGS = ['list', 'tuple', 'ndarray', 'list-of-UID']
+SEG_SPELLINGS = [None, None, 'list', 'tuple', 'ndarray', 'np.int64', 'np.uint16']
+
+
+def _spell_ints(vals, how):
+    """The same integers in every spelling the API accepts."""
+    vals = [int(v) for v in vals]
+    if how == 'tuple':
+        return tuple(vals)
+    if how == 'ndarray':
+        return np.array(vals)
+    if how == 'ndarray-int32':
+        return np.array(vals, dtype=np.int32)
+    if how in ('np.int64', 'np.int32', 'np.uint16', 'np.intp'):
+        t = {'np.int64': np.int64, 'np.int32': np.int32, 'np.uint16': np.uint16, 'np.intp': np.intp}[how]
+        return [t(v) for v in vals]
+    if how == 'range' and vals == list(range(vals[0], vals[0] + len(vals))):
+        return range(vals[0], vals[0] + len(vals))
+    return list(vals)
+
+
+def read_back(seg, c, src, ids, order, spell=None, segspell=None, **kw):
+    """Read the planes `order` (indices into the supplied source list) through the public API; `spell` / `segspell`
+    choose how the frame numbers / UIDs / segment numbers are spelled (list, tuple, ndarray, NumPy scalars, range)."""
+    if segspell:
+        kw['segment_numbers'] = _spell_ints(c['segs'], segspell)
     if c['source'] == 'enhanced':
-        return seg.get_pixels_by_source_frame(src[0].SOPInstanceUID, [ids[i][1] for i in order], **kw)
-    return seg.get_pixels_by_source_instance([ids[i][1] for i in order], **kw)
+        return seg.get_pixels_by_source_frame(src[0].SOPInstanceUID, _spell_ints([ids[i][1] for i in order], spell or 'list'), **kw)
+    uids = [ids[i][1] for i in order]
+    if spell == 'tuple':
+        uids = tuple(uids)
+    elif spell == 'ndarray':
+        uids = np.array([str(u) for u in uids])
+    elif spell == 'list-of-UID':
+        import highdicom as hd
+        uids = [hd.UID(str(u)) for u in uids]
+    else:
+        uids = [str(u) for u in uids] if spell == 'list' else uids
+    return seg.get_pixels_by_source_instance(uids, **kw)
+
+
+def _snapshot(obj):
+    """What a read must leave untouched."""
+    import hashlib
+    try:
+        n_items = len(obj.PerFrameFunctionalGroupsSequence)
+    except Exception:  # noqa: BLE001
+        n_items = -1
+    return (hashlib.sha1(bytes(obj.get('PixelData', b''))).hexdigest(), str(obj.NumberOfFrames), n_items,
+            [int(d.SegmentNumber) for d in obj.SegmentSequence])
 
 
 def frame_keys(ds, c, src, ids):
@@ -504,7 +560,7 @@ def run_case(ctx, c, reqs, pending, paths=('memory', 'eager', 'lazy')):
         kind = _err_kind(e)
     hist = dict(type=c['type'], layout=c['layout'], dtype=c['dtype'], source=c['source'], syntax=c['ts'], omit=c['omit'],
                 empty=c['empty'], residue=n % 8, small=n < 8, planes=P, segments=len(c['segs']), workers=c['workers'],
-                mem=c.get('mem', 'C'), palette=bool(c.get('palette')),
+                mem=c.get('mem', 'C'), palette=bool(c.get('palette')), ctor_spelling=c.get('ctor_spelling', 'plain'),
                 mfv=c['mfv'] if c['type'] == 'FRACTIONAL' else '-', bad=applied or '-',
                 outcome='ok' if seg is not None else 'refused')
     margs = model_args(c, keep)
@@ -608,9 +664,16 @@ def run_case(ctx, c, reqs, pending, paths=('memory', 'eager', 'lazy')):
                        c['source'], path)
             ctx.case(sample=case if ctx.evaluations % 211 == 0 else None, nontrivial_key=key, path=path, request=oname, **hist)
             want = exp[order]
+            sp = np.random.default_rng([c['read_perm_seed'], len(path), len(oname), c['idx']])
+            spell = str(sp.choice(FRAME_SPELLINGS if c['source'] == 'enhanced' else UID_SPELLINGS))
+            segspell = SEG_SPELLINGS[int(sp.integers(0, len(SEG_SPELLINGS)))]
+            case['spelling'] = [spell, segspell]
+            ctx.hist('spelling', spell)
+            ctx.hist('segment_spelling', segspell)
             # raw stored values
             try:
-                got = read_back(obj, c, src, ids, order, assert_missing_frames_are_empty=True, rescale_fractional=False)
+                got = read_back(obj, c, src, ids, order, spell=spell, segspell=segspell,
+                                assert_missing_frames_are_empty=True, rescale_fractional=False)
             except Exception as e:  # noqa: BLE001
                 ctx.fail(case, f'read refused: {type(e).__name__}: {e}'[:300], site=f'read/{path}')
                 continue
@@ -626,12 +689,42 @@ def run_case(ctx, c, reqs, pending, paths=('memory', 'eager', 'lazy')):
             # default read (rescaled fractions)
             if frac and oname == 'supplied':
                 try:
-                    gotf = read_back(obj, c, src, ids, order, assert_missing_frames_are_empty=True)
+                    gotf = read_back(obj, c, src, ids, order, spell=str(sp.choice(FRAME_SPELLINGS if c['source'] == 'enhanced'
+                                                                                 else UID_SPELLINGS)),
+                                     assert_missing_frames_are_empty=True)
                     wantf = want.astype(np.float64) / c['mfv']
                     if gotf.shape != wantf.shape or not np.all(np.abs(gotf.astype(np.float64) - wantf) <= 1e-7):
                         ctx.fail(case, 'rescaled fractional read-back differs from round(q*mfv)/mfv', site=f'read-rescaled/{path}')
                 except Exception as e:  # noqa: BLE001
                     ctx.fail(case, f'rescaled read refused: {type(e).__name__}: {e}'[:300], site=f'read-rescaled/{path}')
+        # several calls on ONE object: the same read again, a read after a refused call, after a read with other options;
+        # none of them may change the object or the answer
+        if path in ('memory', 'eager', 'lazy') and (path == 'memory' or c['idx'] % 2 == 0):
+            case = dict(desc, path=path, request='sequence')
+            ctx.case(path=path + '/sequence', **hist)
+            try:
+                snap = _snapshot(obj)
+                first = read_back(obj, c, src, ids, supplied, assert_missing_frames_are_empty=True, rescale_fractional=False)
+                try:        # a refused call in between: unknown source / frame number 0 without the missing-frames flag
+                    if c['source'] == 'enhanced':
+                        obj.get_pixels_by_source_frame(src[0].SOPInstanceUID, [0])
+                    else:
+                        obj.get_pixels_by_source_instance(['1.2.3.4.5.6.7'])
+                    ctx.fail(case, 'request naming an unknown source accepted without assert_missing_frames_are_empty',
+                             site='read-sequence')
+                except Exception:  # noqa: BLE001
+                    pass
+                read_back(obj, c, src, ids, list(reversed(supplied)), spell='tuple', assert_missing_frames_are_empty=True)
+                again = read_back(obj, c, src, ids, supplied, spell='ndarray' if c['source'] == 'enhanced' else 'tuple',
+                                  assert_missing_frames_are_empty=True, rescale_fractional=False)
+                if not (first.shape == again.shape and np.array_equal(first, again)
+                        and np.array_equal(again.astype(np.int64), exp)):
+                    ctx.fail(case, 'the same read gives a different answer after other calls on the object', site='read-sequence')
+                if _snapshot(obj) != snap:
+                    ctx.fail(case, 'reading modified the object (PixelData / NumberOfFrames / per-frame items / segments)',
+                             site='read-sequence')
+            except Exception as e:  # noqa: BLE001
+                ctx.fail(case, f'call sequence failed: {type(e).__name__}: {e}'[:300], site='read-sequence')
         # without the missing-frames flag: must work exactly when every requested source is referenced by a frame
         if path == 'memory':
             stored_planes = {p for p in range(P) if exp[p].any()} if (c['omit'] and nonempty) else set(range(P))
@@ -957,18 +1050,34 @@ def _drift_factor(ctx):
 
 
 def _many_segments(ctx, reqs, pending):
-    """A few masks with several hundred segments (labels and channel indices beyond one byte)."""
-    for idx in range(1 if ctx.tier == 'quick' else 3):
-        r = ctx.rng('many', idx)
-        nseg = r.choice([260, 300])
-        typ = r.choice(['BINARY', 'FRACTIONAL', 'LABELMAP'])
-        layout = r.choice(['3d', '4d'])
-        c = {'idx': idx, 'stream': 'many', 'seed': ctx.seed, 'tier': ctx.tier, 'source': r.choice(['series', 'enhanced']),
-             'planes': 2, 'rows': 3, 'cols': 5, 'src_order': [1, 0], 'type': typ, 'dtype': 'uint16' if layout == '3d' else 'uint8',
+    """Masks with more than 255 described segments: label-map style uint16 input stored as BINARY and as FRACTIONAL
+    (labels above one byte must survive whatever the 8-bit output pixel type), and LABELMAP / stacked input."""
+    plans = [('BINARY', '3d', 257), ('FRACTIONAL', '3d', 300)]
+    if ctx.tier != 'quick':
+        plans += [('LABELMAP', '3d', 300), ('BINARY', '4d', 260), ('LABELMAP', '4d', 257), ('BINARY', '3d', 300),
+                  ('FRACTIONAL', '3d', 257)]
+    for idx, (typ, layout, nseg) in enumerate(plans):
+        nr = ctx.np_rng('many/pix', idx)
+        P, R, C = (1, 11, 29) if ctx.tier == 'quick' else (2, 11, 29)
+        if layout == '3d':
+            # every label occurs at least once (most exactly once), the rest is background / repeats
+            lab = np.zeros(P * R * C, dtype=np.int64)
+            pos = nr.permutation(P * R * C)
+            lab[pos[:nseg]] = np.arange(1, nseg + 1)
+            lab[pos[nseg:nseg + 10]] = nr.integers(250, nseg + 1, size=min(10, len(pos) - nseg))
+            arr = lab.reshape(P, R, C)
+            dtype = 'uint16'
+        else:
+            lab = nr.integers(0, nseg + 1, size=(P, R, C))
+            arr = np.stack([(lab == i + 1) for i in range(nseg)], axis=-1).astype(np.int64)
+            dtype = 'uint8'
+        c = {'idx': idx, 'stream': 'many', 'seed': ctx.seed, 'tier': ctx.tier, 'source': ['series', 'enhanced'][idx % 2],
+             'planes': P, 'rows': R, 'cols': C, 'src_order': list(range(P))[::-1], 'type': typ, 'dtype': dtype,
              'layout': layout, 'segs': list(range(1, nseg + 1)), 'mfv': 255, 'omit': True, 'empty': 'none',
              'density': 0.8, 'ts': 'Explicit VR Little Endian', 'workers': 0, 'bad': None, 'read_perm_seed': idx,
-             'mem': 'C'}
+             'mem': 'C', 'explicit': arr.tolist()}
         run_case(ctx, c, reqs, pending, paths=('memory', 'lazy'))
+        ctx.hist('many_segments', f'{typ}/{layout}/{nseg}')
 
 
 def _exhaustive_sizes(ctx, reqs, pending):
